@@ -142,10 +142,12 @@ pub fn menu(prop: &str, tier: &str, depth: usize, e: &Exec) -> Vec<Op> {
                 }
                 out.push(app("a", c.clone(), &time_ttl()));
             }
+            if thorough || !e.live.values().any(|m| m.frame.hash.is_some()) {
+                out.push(Op::Append { topic: "a".into(), ctx: ctxs.last().unwrap().clone(), ttl: "".into(), meta: Some(json!({"k": [1, "x", null], "n": 1.5})), body: Some("body".into()) });
+            }
             if thorough {
                 out.push(app("", Ctx::Zero, ""));
                 out.push(app("日", Ctx::Zero, ""));
-                out.push(Op::Append { topic: "a".into(), ctx: Ctx::Zero, ttl: "".into(), meta: Some(json!({"k": [1, "x", null], "n": 1.5})), body: Some("body".into()) });
             }
             if e.ctxs.len() < if thorough { 2 } else { 1 } {
                 out.push(Op::Register { ctx: Ctx::Zero, ttl: "".into() });
@@ -425,8 +427,22 @@ pub fn run(prop: &str, tier: &str, report: &mut Report) {
             capped = true;
             break;
         }
-        let jobs: Vec<Value> = frontier.iter().map(|h| json!({"history": h})).collect();
-        let results = common::pool_map("seq", &extra, common::ncpu(), jobs);
+        // a level is processed in chunks so that the wall-clock cap is honoured inside a level; a
+        // level cut short is reported as not completed
+        let mut results: Vec<Value> = Vec::with_capacity(frontier.len());
+        let mut cut = false;
+        for chunk in frontier.chunks(3000) {
+            if t0.elapsed().as_secs() > p.time_cap_s {
+                cut = true;
+                break;
+            }
+            let jobs: Vec<Value> = chunk.iter().map(|h| json!({"history": h})).collect();
+            results.extend(common::pool_map("seq", &extra, common::ncpu(), jobs));
+        }
+        if cut {
+            capped = true;
+            frontier.truncate(results.len());
+        }
         let mut next: Vec<Vec<Op>> = vec![];
         let mut new_states = 0;
         for (h, r) in frontier.iter().zip(results.iter()) {
@@ -481,7 +497,10 @@ pub fn run(prop: &str, tier: &str, report: &mut Report) {
                 }
             }
         }
-        per_level.push(json!({"depth": depth, "histories": frontier.len(), "new_states": new_states}));
+        per_level.push(json!({"depth": depth, "histories": frontier.len(), "new_states": new_states, "completed": !cut}));
+        if cut {
+            break;
+        }
         depth_done = depth as i64;
         if next.is_empty() {
             exhausted = depth < p.max_depth;
